@@ -37,10 +37,10 @@ class NullFunction(Function):
     return 0
 
   def deriv(self, x):
-    return 0
+    return np.zeros(np.array(x).shape)
 
   def hess(self, x):
-    return 0
+    return np.zeros(np.array(x).shape*2)
 
 
 class SumFunction(Function):
